@@ -150,6 +150,11 @@ fn op_serde(j: &Value) -> Value {
                 let n = buf.len();
                 (ciborium::de::from_reader(buf.as_slice()).expect("deserialise"), n)
             }
+            "wire_map" | "wire_seq" => {
+                let v = crate::wire::to_val(&gen, fmt == "wire_seq").expect("serialise");
+                let n = v.size();
+                (crate::wire::from_val(v).expect("deserialise"), n)
+            }
             other => panic!("harness: unknown format {other}"),
         };
         let logger = CaptureLogger::new();
